@@ -13,7 +13,7 @@ import (
 )
 
 func c18NewExec(r *core.R, pk *packages.Package, fd *ast.FuncDecl, ctx *c18Ctx) *c18Exec {
-	x := &c18Exec{r: r, pk: pk, info: pk.TypesInfo, fd: fd, ctx: ctx, cfgs: map[*ast.BlockStmt]*cfg.CFG{}, pkgC: map[types.Object]c18Val{}, loopSeen: map[ast.Stmt]bool{}}
+	x := &c18Exec{r: r, pk: pk, info: pk.TypesInfo, fd: fd, ctx: ctx, cfgs: map[*ast.BlockStmt]*cfg.CFG{}, pkgC: map[types.Object]c18Val{}, loopSeen: map[ast.Stmt]bool{}, keyIdx: map[types.Object]*c18KeyIndex{}}
 	x.funcs = c18FuncIndex(pk)
 	if fd.Recv != nil && len(fd.Recv.List) == 1 && len(fd.Recv.List[0].Names) == 1 {
 		x.recv = x.info.Defs[fd.Recv.List[0].Names[0]]
